@@ -122,14 +122,16 @@ contract(CP + '__init__', [('self', CT), ('expression', ET), ('equality_or_inequ
                                                   a['equality_or_inequality'].t == SENSE['inequality'])))],
          ensures=cons_init_ens,
          modifies=lambda S, a: {n: (lambda r: r == a['self'].t) for n in CONS_ARRAYS},
-         mod_globals=['Constraint.counter'])
+         mod_globals=['Constraint.counter'], allocates=False)
 
 CMP_TOUCH = lambda S, a: sorted(set(obj_arrays('Expression') + DICT_ARRAYS + CONS_ARRAYS))
 
 
 def cmp_contract(name, sign_self, sign_other, sense):
     def ens(S0, S, a, res):
-        out = new_object(S0, S, res, 'Constraint')
+        out = new_object(S0, S, res, 'Constraint') + [('no_new_leaf', no_new_leaf(S0, S), 'aux'),
+                                                      ('registries', z3.And(registry_same(S0, S, 'Point.list_of_leaf_points'),
+                                                                            registry_same(S0, S, 'Expression.list_of_leaf_expressions')), 'aux')]
         if not (a['other'].ty.k in ('real', 'int') or (a['other'].ty.k == 'ref' and a['other'].ty.a[0] == 'Expression')):
             return out
         e = S.fld('Constraint', 'expression', res.t)
